@@ -485,3 +485,31 @@ func VF_C04_tag_yaml() {
 	}
 	vfReach("C04_tag_yaml")
 }
+
+func init() { vfRegister("VF_C04_merge_order", VF_C04_merge_order) }
+
+// VF_C04_merge_order: decorators of several files are applied in file order
+// (the order in which the files are merged), each file's own order kept.
+func VF_C04_merge_order() {
+	mk := func(tag string) []Decorator {
+		n := vfChoice(tag+".n", 3)
+		var ds []Decorator
+		for i := 0; i < n; i++ {
+			ds = append(ds, Decorator{Tag: vfStr(tag+".tag", 2), Decorator: vfStr(tag+".fn", 2)})
+		}
+		return ds
+	}
+	f1, f2, f3 := Input{Decorators: mk("f1")}, Input{Decorators: mk("f2")}, Input{Decorators: mk("f3")}
+	got := Merge(Merge(f1, f2), f3).Decorators
+	var want []Decorator
+	want = append(want, f1.Decorators...)
+	want = append(want, f2.Decorators...)
+	want = append(want, f3.Decorators...)
+	vfAssert(len(got) == len(want), "every decorator of every file is kept")
+	if len(got) == len(want) {
+		for i := range want {
+			vfAssert(got[i].Tag == want[i].Tag && got[i].Decorator == want[i].Decorator, "decorators keep file order across merged files")
+		}
+	}
+	vfReach("C04_merge_order")
+}
